@@ -390,7 +390,7 @@ def run(ctx):
             "start()'s Deferred fires twice (AlreadyCalledError) or never")
 
     # ---- R5 shutdown order
-    r = ctx.rule("R5", "shutdown: flag first, wait for the processor, commit when a group is set, then stop, then fire", 5,
+    r = ctx.rule("R5", "shutdown: flag first, wait for the processor, commit when a group is set, then stop, then fire", 8,
                  "B")
     csd = ctx.cfg(shutdown)
     flag = [n for n in csd.nodes if node_writes_attr(n, "_shuttingdown") and isinstance(node_assign_value(
@@ -459,10 +459,46 @@ def run(ctx):
             "when another commit is in flight at shutdown, its completion does not lead to a fresh commit of the final offset",
             where(shutdown, fail_h.node if fail_h else shutdown.node),
             "blocks processed after the in-flight commit was sent are never committed: on success last committed != last processed")
+    # ... and whatever becomes of that commit: a continuation registered for its success only leaves shutdown() waiting
+    # for ever when the commit in flight fails (finding F27)
+    okb = False
+    if fail_h is not None:
+        on_ok, on_fail = [], []
+        for g in registrations(fail_h, prog):
+            if ".value.deferred" not in (g["root"] or ""):
+                continue
+            if g["cb"] is not None:
+                on_ok.append(prog.resolve_callable(fail_h, g["cb"]))
+            if g["eb"] is not None:
+                on_fail.append(prog.resolve_callable(fail_h, g["eb"]))
+        okb = cas in on_ok and any(h in (cas, fail_h) for h in on_fail if h is not None)
+    r.check(okb, "%s#in-progress-both-outcomes" % shutdown.qname,
+            "the step that follows the commit in flight is registered for its success only", where(shutdown, fail_h.node if fail_h else shutdown.node),
+            "an automatic commit is in flight at shutdown() and then fails (out of attempts, or a non-Kafka error): the continuation never "
+            "runs, the Deferred returned by shutdown() never fires and the consumer never stops")
+    # stop() is not re-entrant: a handler (anything but the public methods) may be running because stop() just cancelled
+    # the Deferred it is chained to, so it calls stop() only when no stop is in progress (finding F28)
+    n_st = 0
+    for f in sorted([x for x in prog.funcs.values() if x.cls is ci], key=lambda x: x.qname):
+        if f.parent is None and not f.name.startswith("_"):
+            continue
+        cf_ = ctx.cfg(f)
+        ff_ = None
+        for n in cf_.nodes:
+            for c in n.calls():
+                if call_name(c) == "stop" and call_recv(c) == "self":
+                    ff_ = ff_ or ctx.facts(f)
+                    n_st += 1
+                    r.check(("self._stopping", False) in ff_[n.id], "%s#stop-not-re-entered" % f.qname,
+                            "a handler calls stop() without having tested that no stop() is in progress", where(f, c),
+                            "stop() cancels the Deferred this handler is chained to (the processor the shutdown waits for); the handler "
+                            "calls stop() again, which completes; the outer stop() then works on cleared state: AttributeError out of stop()")
+    need(n_st >= 2, "handler call sites of stop() not found")
     cok = ctx.cfg(ok_s)
     stops = [n.id for n in cok.nodes if any(call_name(c) == "stop" and call_recv(c) == "self" for c in n.calls())]
     fire = [n for n in cok.nodes if any(call_name(c) == "callback" for c in n.calls())]
-    r.check(bool(stops) and fire and all(cok.dominates(stops, n.id) for n in fire) and all(
+    # ... unless stop() is what is running this handler (it cancelled the processor the shutdown was waiting for)
+    r.check(bool(stops) and fire and not case_reach(cok, "", "", {}, False, {n.id for n in fire}, avoid=set(stops)) and all(
         norm(c.args[0]) == "self._last_processed_offset" for n in fire for c in n.calls() if call_name(c) == "callback"),
         "%s#stop-then-fire" % ok_s.qname, "shutdown success does not stop() before firing with the last processed offset",
         where(ok_s, ok_s.node))
